@@ -1184,10 +1184,127 @@ type c8Issue struct {
 	corrOnly bool // model/impl difference with all property predicates holding
 }
 
+// c8parallelDemand: the same short-circuit consumers behind a map/accept stage that HAS switched to its parallel
+// mode (300 µs host function in the closure). The workers read ahead, so the bound is the decisive position plus
+// the sequential prefix, the workers and the dispatch slack (64 in all) instead of an exact count — but it must
+// not depend on the length of the source, and a source of 10^9 elements must not be walked.
+func c8parallelDemand(c *Ctx) {
+	type pcase struct {
+		wc    *workerCase
+		limit int
+		want  string
+	}
+	var cases []*pcase
+	var wcs []*workerCase
+	stages := []string{".map(x -> slow(tick(x)))", ".accept(x -> slow(tick(x)) >= 0)", ".map(x -> slow(tick(x)) + 0).map(x -> x)", ".accept(x -> slow(tick(x)) % 7 != 3).map(x -> x)",
+		".map(x -> x).accept(x -> slow(tick(x)) >= 0)"}
+	for _, n := range []string{"3000", "1000000000"} {
+		for si, st := range stages {
+			for _, k := range []int{0, 5, 13, 40, 100} {
+				cons := []struct{ src, want string }{
+					{fmt.Sprintf(".skip(%d).first()", k), ""}, {fmt.Sprintf(".top(%d).size()", k+1), fmt.Sprintf("i%d", k+1)},
+					{fmt.Sprintf(".indexWhere(e -> e >= %d) >= 0", k), "b1"}, {fmt.Sprintf(".present(e -> e >= %d)", k), "b1"}}
+				for _, cn := range cons {
+					// accept stage 3 drops a seventh of the elements: the decisive position moves by that factor
+					limit := k + 64
+					if si == 3 {
+						limit = k*7/6 + 72
+					}
+					wc := &workerCase{id: fmt.Sprintf("pd%d", len(cases)), a: 0, flags: "opt", src: "numbers(" + n + ")" + st + cn.src}
+					cases = append(cases, &pcase{wc: wc, limit: limit, want: cn.want})
+					wcs = append(wcs, wc)
+				}
+			}
+		}
+	}
+	parallelBatches(wcs, 12, false, 16, 60*time.Second)
+	for _, pc := range cases {
+		c.Case("parallel-demand|"+pc.wc.src, true)
+		c.Count("parallel-demand")
+		replay := map[string]any{"program": pc.wc.src, "outcome": pc.wc.outcome, "closure_evaluations": pc.wc.ticks, "limit": pc.limit, "goroutines": pc.wc.goroutines}
+		switch {
+		case pc.wc.outcome == "TIMEOUT" || pc.wc.outcome == "CRASH":
+			c.Violation("parallel-stage-walks-the-source", "a short-circuit consumer behind a parallel stage did not return (the source is walked to its end, or the stage hangs)", replay)
+		case pc.want != "" && pc.wc.outcome != "OK "+pc.want:
+			c.Violation("parallel-demand-wrong-result", "unexpected outcome, want "+pc.want, replay)
+		case pc.wc.ticks > pc.limit:
+			c.Violation("parallel-stage-demand-beyond-readahead", fmt.Sprintf("the closure of the parallel stage was evaluated %d times, more than the decisive prefix plus the workers' read-ahead (%d)", pc.wc.ticks, pc.limit), replay)
+		}
+		if pc.wc.goroutines > 1 {
+			c.Count("parallel-demand:switched")
+		}
+	}
+}
+
+// c8reuse: one lazy list value bound by let and consumed two or three times by short-circuit consumers; every
+// use may demand its own prefix again, but none may walk the list (second-use caches, materialising on reuse).
+func c8reuse(c *Ctx) {
+	type rcase struct {
+		wc    *workerCase
+		limit int
+	}
+	var cases []*rcase
+	var wcs []*workerCase
+	stages := []struct {
+		src string
+		per int // closure evaluations per pulled source element, at most
+	}{{".map(x -> tick(x))", 1}, {".accept(x -> tick(x) >= 0)", 1}, {".combine((p, q) -> tick(p) + q)", 1}, {".iir(x -> tick(x), (x, l) -> tick(x) + l)", 1},
+		{".map(x -> tick(x)).skip(1)", 1}, {".number((i, x) -> tick(x) + i)", 1}}
+	uses := func(k int) []struct {
+		src    string
+		demand int
+	} {
+		return []struct {
+			src    string
+			demand int
+		}{{".first()", 1}, {fmt.Sprintf(".skip(%d).first()", k), k + 1}, {fmt.Sprintf(".top(%d).size()", k), k}, {fmt.Sprintf(".indexWhere(e -> e >= %d)", k), k + 1},
+			{fmt.Sprintf(".top(%d).sum()", k), k}, {fmt.Sprintf(".present(e -> e >= %d)", k), k + 1}}
+	}
+	for _, n := range []string{"1000", "9000", "1000000000"} {
+		for _, st := range stages {
+			for _, k := range []int{2, 7, 50} {
+				us := uses(k)
+				for a := range us {
+					for b := range us {
+						if (a+b+k)%3 != 0 { // a third of the pairs, deterministically
+							continue
+						}
+						third := us[(a+b)%len(us)]
+						src := fmt.Sprintf("let l = numbers(%s)%s; [l%s, l%s, l%s].size()", n, st.src, us[a].src, us[b].src, third.src)
+						// per use: its demand + the stage's own look-ahead (combine/skip: 1..2) + the consumer's read-ahead (1)
+						limit := st.per * (us[a].demand + us[b].demand + third.demand + 3*4)
+						wc := &workerCase{id: fmt.Sprintf("ru%d", len(cases)), a: 0, flags: "opt", src: src}
+						cases = append(cases, &rcase{wc: wc, limit: limit})
+						wcs = append(wcs, wc)
+					}
+				}
+			}
+		}
+	}
+	parallelBatches(wcs, 12, false, 4, 60*time.Second)
+	for _, rc := range cases {
+		c.Case("reuse|"+rc.wc.src, true)
+		c.Count("reuse")
+		replay := map[string]any{"program": rc.wc.src, "outcome": rc.wc.outcome, "closure_evaluations": rc.wc.ticks, "limit": rc.limit}
+		switch {
+		case rc.wc.outcome == "TIMEOUT" || rc.wc.outcome == "CRASH":
+			c.Violation("reused-list-is-walked", "short-circuit consumers of a let-bound lazy list did not return", replay)
+		case rc.wc.outcome != "OK i3":
+			c.Violation("reuse-wrong-result", "unexpected outcome, want i3", replay)
+		case rc.wc.ticks > rc.limit:
+			c.Violation("reused-list-demand-beyond-prefix", fmt.Sprintf("the closures of a let-bound lazy list consumed three times were evaluated %d times, more than the three demanded prefixes allow (%d)", rc.wc.ticks, rc.limit), replay)
+		}
+	}
+}
+
 func runC08(c *Ctx) {
+	if os.Getenv("VERIF_REPLAY") == "" {
+		c8parallelDemand(c)
+		c8reuse(c)
+	}
 	c.rule = "pipelines source (numbers(n) | host-provided lazy list | list literal | a+b) -> 0..3 lazy stages (map, accept, top, skip, combine, combine3, combineN, iir, iirCombine, number, compact; a counting host function inside every closure) -> short-circuit consumer (first, single, top(v).size, top(v) collected, present, indexWhere, ~, multiUse of 1..3 of them), evaluated by the real code in a child process for the decisive element at positions k in 0..200, sources of the demanded length, +1, 10^3/2*10^4 and 10^11, and a throwing element before/at/behind the decisive one in every closure and in the source; every evaluation is one case; non-trivial = at least one lazy stage between source and consumer and at least two source elements pulled (k >= 1)"
 	c.assume = append(c.assume,
-		"sequential profile: closures are cheap, MapAuto/FilterAuto never switch to parallel mode (a run that disagrees is repeated twice in a fresh child and reported only if it reproduces)",
+		"sequential profile: closures are cheap, MapAuto/FilterAuto never switch to parallel mode (a run that disagrees is repeated twice in a fresh child and reported only if it reproduces); the parallel profile (300 µs closures) is checked against a bound, decisive position + 64, that is independent of the source length (200 pipelines over 3000 and 10^9 elements); a let-bound lazy list consumed three times by short-circuit consumers is checked against the sum of the three demanded prefixes",
 		"multiUse whose outcome is an error, or with a closure that throws on an evaluated value: only the outcome is compared (the run loop observes errorTerm at a racy point)",
 		"element values stay far below 2^63 (no wrap-around in the affine closure grammar)")
 	nShapes := c.Pick(120, 2000)
